@@ -43,6 +43,9 @@ def bulk_histories():
     deletions that leave the leaf more than half full, then further insertions: the occupancy at which deferred (lazy)
     deletion really defers, and at which inserts are refused for lack of room."""
     cases = []
+    # more attribute data than the 64 KiB direct block of the dense attribute heap holds
+    for n, cls in ((330, "s200"), (100, "s700")):
+        cases.append({"cfg": {"obj": "dataset", "sb": 2, "pre": 0, "style": 0}, "ops": [{"op": "put", "n": "h%d" % i, "v": cls} for i in range(n)]})
     for k, (n, d, more) in enumerate([(186, 1, 0), (200, 5, 3), (300, 2, 0), (371, 1, 2), (371, 40, 45), (380, 3, 0)]):
         ops = [{"op": "put", "n": "n%d" % i, "v": ["i32", "f64", "s7", "i8", "ai3"][i % 5]} for i in range(n)]
         ops += [{"op": "del", "n": "n%d" % (i * 37 % n), "v": ""} for i in range(d)]
